@@ -2,6 +2,7 @@ package ramfs
 
 import (
 	"context"
+	"sync"
 	"time"
 
 	"github.com/frobnitzem/go-p9p"
@@ -9,10 +10,13 @@ import (
 
 // Rooted file hierarchy
 type fServer struct {
+	sync.Mutex // protects lastpath
 	lastpath uint64
 	root *FileEnt
 }
 func (fs *fServer) next() uint64 {
+	fs.Lock()
+	defer fs.Unlock()
 	fs.lastpath++
 	return fs.lastpath
 }
